@@ -565,7 +565,7 @@ NOTE:
             return x[-1] if onexit is None else onexit(x[-1][:])
         # cycle constraints until there's no change
         _constraints = it.cycle(constraints) 
-        skip = 0 # number of checks to skip after randomizing
+        skip = 0 if e is None else n-1 # number of checks to skip
         for j in range(n,maxiter):
             e = None
             try:
@@ -584,6 +584,8 @@ NOTE:
                 skip -= 1
             elif all(xi == x[-1] for xi in x[-n:]) and e is None:
                 return x[-1] if onexit is None else onexit(x[-1][:])
+            if e is not None: # an x kept after a failed constraint is not a result
+                skip = n-1
             # may be trapped in a cycle... randomize
             if x[-1] == x[-(n+1)]:
                 x[-1] = [(i+rnd.randint(-1,1))*rnd.random() for i in x[-1]]
